@@ -33,8 +33,8 @@ SPLITS = {
     "plainK3": [dict(nr=[1, 2], nt=[2, 1], nte=[]), dict(nr=[2, 1, 1], nt=[1, 1, 2], nte=[]), dict(nr=[1, 1, 2], nt=[2, 1, 1], nte=[])],
     "extK3": [dict(nr=[1, 2], nt=[2, 1], nte=[1]), dict(nr=[2, 1, 1], nt=[1, 1, 2], nte=[1]), dict(nr=[1, 1, 2], nt=[2, 1, 1], nte=[2])],
 }
-ACTS_A = {"Randomize", "InitFrom", "SetPathloss", "ReadH", "ReadBigH", "GetHkl", "GetHk", "BigHNoExt", "HNoExt", "GetHkNoExt"}
-ACTS_B = {"Randomize", "SetPathloss", "SetNoiseVar", "SetPostFilter", "ReadBigH", "Corrupt"}
+ACTS_A = {"Randomize", "InitFrom", "SetPathloss", "ReadH", "ReadBigH", "GetHkl", "GetHk", "BigHNoExt", "HNoExt", "GetHkNoExt", "Rejected"}
+ACTS_B = {"Randomize", "SetPathloss", "SetNoiseVar", "SetPostFilter", "ReadBigH", "Corrupt", "Rejected"}
 
 
 def model(ext, splits, acts, npl, nfilt, ndata, dev=(), emit=True):
@@ -66,6 +66,11 @@ class Driver:
         self.obj.set_noise_seed(seed + 2)
         self.raw = None
         self.filters = None
+        # a bystander: another object initialised from this object's channel; nothing done to the object under
+        # test may change what the bystander reports
+        self.by = None
+        self.by_views = None
+        self.pending = None
 
     def dims(self, s):
         sp = self.splits[s - 1]
@@ -79,6 +84,33 @@ class Driver:
         else:
             c.set_pathloss(None)
         return np.array(c.big_H, dtype=complex)
+
+    def _new_bystander(self, nr, nt, nte, K):
+        from pyphysim.channels import multiuser
+        src = copy.deepcopy(self.obj)
+        self.by = multiuser.MultiUserChannelMatrixExtInt() if self.ext else multiuser.MultiUserChannelMatrix()
+        # the bystander is built from the matrix the object under test hands out (no path loss -> its raw matrix)
+        o = self.obj
+        had = o.pathloss
+        give = o.big_H if had is None else src.big_H
+        if self.ext:
+            self.by.init_from_channel_matrix(give, np.array(nr), np.array(nt), K, np.array(nte))
+        else:
+            self.by.init_from_channel_matrix(give, np.array(nr), np.array(nt), K)
+        self.by_views = (np.array(self.by.big_H), [[np.array(self.by.get_Hkl(k, l)) for l in range(K)] for k in range(K)])
+
+    def bystander_changed(self):
+        if self.by is None:
+            return None
+        big, blocks = self.by_views
+        if not np.array_equal(np.array(self.by.big_H), big):
+            return "big_H of a bystander object (initialised from this object's channel earlier) changed"
+        K = len(blocks)
+        for k in range(K):
+            for l in range(K):
+                if not np.array_equal(np.array(self.by.get_Hkl(k, l)), blocks[k][l]):
+                    return "a block of a bystander object changed"
+        return None
 
     def step(self, e):
         """apply the edge's operation to the real object; returns (kind, value)"""
@@ -100,7 +132,31 @@ class Driver:
                 else:
                     o.init_from_channel_matrix(m.copy(), np.array(nr), np.array(nt), K)
                 self.raw = m
+            self.pending = self.bystander_changed()      # the old bystander must have survived this call untouched
+            self._new_bystander(nr, nt, nte, K)
             return None
+        if op == "Rejected":
+            nr, nt, nte = self.dims(e["post"]["split"])
+            K = len(nr)
+            if a[0] == "initK":
+                m = _gint(self.rng, sum(nr), sum(nt) + sum(nte))
+                nr2 = np.ones(sum(nr), dtype=int)        # right totals, wrong number of users
+                nt2 = np.ones(sum(nt), dtype=int)
+                if len(nr2) == K and len(nt2) == K:
+                    return None
+                try:
+                    if self.ext:
+                        o.init_from_channel_matrix(m, nr2, nt2, K, np.array(nte))
+                    else:
+                        o.init_from_channel_matrix(m, nr2, nt2, K)
+                except ValueError:
+                    return None
+                return ("error", "init_from_channel_matrix accepted Nr/Nt that do not have K entries")
+            try:
+                o.noise_var = -1.0
+            except (AssertionError, ValueError):
+                return None
+            return ("error", "a negative noise variance was accepted")
         if op == "SetPathloss":
             if a[0] == 0:
                 o.set_pathloss(None, None) if self.ext else o.set_pathloss(None)
@@ -271,10 +327,16 @@ def run_path(job):
                 if not okrx:
                     viol.append({"step": i, "op": e["ret"],
                                  "what": "corrupt_data output != W^H (big_H x + last_noise) split by Nr"})
+            elif kind == "error":
+                viol.append({"step": i, "op": e["ret"], "what": val})
             else:
                 d = compare_view(kind, val, ev, K, ncb)
                 if d:
                     viol.append({"step": i, "op": e["ret"], "what": "returned " + d})
+        bc = drv.pending or drv.bystander_changed()
+        drv.pending = None
+        if bc:
+            viol.append({"step": i, "op": e["ret"], "what": bc})
         for kind, d in probe_all(drv.obj, ev, K, ncb, ext):
             viol.append({"step": i, "op": e["ret"], "what": f"after step: view {kind}: {d}"})
         if viol:
@@ -343,7 +405,7 @@ def run(ctx):
     mode = {"depth": 5, "limit": 20000, "walks": 3000, "walk_len": 14} if thorough else {"walks": 150, "walk_len": 12}
     cfgs = [
         ("plain/coherence", False, "plainA", ACTS_A, 2, 1, 1),
-        ("extint/coherence", True, "extA", ACTS_A, 2, 1, 1),
+        ("extint/coherence", True, "extA", ACTS_A, 3, 1, 1),
         ("plain/receive", False, "plainB", ACTS_B, 1, 2 if thorough else 1, 1),
         ("extint/receive", True, "extB", ACTS_B, 1, 2 if thorough else 1, 1),
     ] + ([("plain/K3", False, "plainK3", ACTS_A, 2, 1, 1), ("extint/K3", True, "extK3", ACTS_A, 2, 1, 1)] if thorough else [])
@@ -358,7 +420,7 @@ def run(ctx):
     for c, r in zip(cfgs, runs):
         sp = SPLITS[c[2]][:(3 if thorough or "coherence" in c[0] else 2)]
         n += explore(ctx, c[0], c[1], sp, r, mode)
-    ctx.require_actions(["NewChannel", "SetPathloss", "SetNoiseVar", "SetPostFilter", "Reader", "GetHkl", "GetHk",
+    ctx.require_actions(["NewChannel", "SetPathloss", "SetNoiseVar", "SetPostFilter", "Rejected", "Reader", "GetHkl", "GetHk",
                          "BigHNoExt", "HNoExt", "GetHkNoExt", "Corrupt"])
     ctx.exhaustive = True
     ctx.notes["paths_replayed"] = n
